@@ -6,7 +6,7 @@ WT=/tmp/seedwt_${PID}_$N; OUT=/tmp/seed_${PID}_$N
 git -C /repo worktree add --detach $WT HEAD >/dev/null 2>&1 || true
 [ -f $WT/Cargo.lock ] || cp /repo/Cargo.lock $WT/Cargo.lock
 # warm the build: registry dependencies (Cranelift, ...) are reused, workspace crates rebuild
-[ -d $WT/target ] || { mkdir -p $WT/target && cp -r /repo/target/debug $WT/target/debug 2>/dev/null || true; }
+[ -d $WT/target ] || { mkdir -p $WT/target && cp -a /repo/target/debug $WT/target/debug 2>/dev/null || true; }
 mkdir -p $OUT
 python3 - "$PID" "$WT" "$OUT" <<'PY'
 import json,sys
